@@ -192,6 +192,16 @@ def trace_validation(rep, wd, tier, seed):
     chunks = core.split(list(range(n)), core.NCPU)
     with ProcessPoolExecutor(len(chunks)) as ex:
         batches = list(ex.map(_drive_traces, [(seed, c[0], c[-1] + 1) for c in chunks]))
+    # more than 64 KiB delivered through one unblocker
+    big = []
+    for i, nblocks in enumerate((66, 70)):
+        f = render_blocks(bytes((j * 11 + j // 253) % 253 + 1 for j in range(nblocks * P - 100)), nblocks)
+        sizes = ([P] * (nblocks + 1)) if i == 0 else ([4, 1000, 6000, 60000, 1, P, 5000, 0])
+        outs = drv.run_unblocker(f, sizes)
+        big.append({'tid': 10 ** 6 + i, 'kind': 'unblocker', 'file': list(f),
+                    'events': [{'op': 'read', 'n': n_, 'bytes': list(o)} for n_, o in zip(sizes, outs)],
+                    '_desc': 'Unblock1014 over %d blocks (%d bytes), reads %s' % (nblocks, len(f), sizes[:8])})
+    batches.append(big)
     rep.sample({'trace': batches[0][0]['_desc']})
 
     def describe(t, r):
